@@ -115,6 +115,8 @@ func (g *pkgGen) T(d int) *Node {
 		v := g.name()
 		if g.r.Chance(1, 3) {
 			v = PickStr(g.r, []string{"true", "false"})
+		} else if g.r.Chance(1, 4) {
+			v = ":" + v // a keyword spelled as a formal: accepted, and still never bound
 		}
 		arg := g.T(d - 1)
 		g.lex = append(g.lex, v)
@@ -153,6 +155,8 @@ func (g *pkgGen) T(d int) *Node {
 		v := g.name()
 		if g.r.Chance(1, 8) {
 			v = PickStr(g.r, []string{"true", "false"})
+		} else if g.r.Chance(1, 6) {
+			v = ":" + v // a keyword spelled as a let variable: accepted, and still never bound
 		}
 		g.noDef++
 		init := g.T(d - 1)
